@@ -919,8 +919,83 @@ def gen_services(repo):
     return "\n".join(out) + "\n"
 
 
+def gen_monitor(repo):
+    """JsonFormatter.format / __init__ (monitor/format_json.py): the order in which the dictionary for json.dumps is assembled
+    and the condition under which the time is part of it (kit/JsonIR.v)"""
+    def src(e):
+        return ast.unparse(e).replace(" ", "")
+
+    def fail(what, node=None):
+        raise TranslationError("monitor: %s%s" % (what, " (line %d)" % node.lineno if node is not None and hasattr(node, "lineno") else ""))
+
+    with open(os.path.join(repo, "src", "cobald", "monitor", "format_json.py")) as fh:
+        tree = ast.parse(fh.read())
+    fn = find_function(tree, "format", cls="JsonFormatter")
+    if [a.arg for a in fn.args.args] != ["self", "record"]:
+        fail("format(self, record)", fn)
+    b = [x for x in fn.body if not (isinstance(x, ast.Expr) and isinstance(x.value, ast.Constant))]
+    # the normalisation of record.args comes first, the return of json.dumps(data) last
+    if len(b) < 5 or src(b[0]) != "args=record.args" or not isinstance(b[1], ast.If) or src(b[1].test) != "args==({},)" \
+            or [src(x) for x in b[1].body] != ["args={}"] or b[1].orelse or not isinstance(b[2], ast.Assert) \
+            or src(b[2].test) != "isinstance(args,Mapping)":
+        fail("format: args = record.args; if args == ({},): args = {}; assert isinstance(args, Mapping)", fn)
+    if not isinstance(b[-1], ast.Return) or src(b[-1].value) != "json.dumps(data)":
+        fail("format: return json.dumps(data)", b[-1])
+    steps = []
+    for x in b[3:-1]:
+        t = src(x)
+        if t == "data=self._defaults.copy()":
+            steps.append("JCopyDefaults")
+        elif (isinstance(x, ast.If) and src(x.test) == "self._add_time" and not x.orelse
+              and [src(y) for y in x.body] == ["data['time']=self.formatTime(record,self.datefmt)"]):
+            steps.append("JSetTime")
+        elif t == "data['message']=record.getMessage()ifargselserecord.msg":
+            steps.append("JSetMessage")
+        elif t == "data.update(args)":
+            steps.append("JUpdateArgs")
+        else:
+            fail("format: unexpected statement %s" % t, x)
+    if not steps or steps[0] != "JCopyDefaults" or steps.count("JCopyDefaults") != 1:
+        fail("format: data must start as a copy of the defaults", fn)
+    fn = find_function(tree, "__init__", cls="JsonFormatter")
+    cond = None
+    for x in fn.body:
+        if isinstance(x, ast.Assign) and len(x.targets) == 1 and src(x.targets[0]) == "self._add_time":
+            if cond is not None:
+                fail("__init__: self._add_time assigned twice", x)
+            cond = x.value
+    if cond is None:
+        fail("__init__: self._add_time = ...", fn)
+
+    def jc(e):
+        if src(e) == "self.datefmt":
+            return "JTruthy"
+        if src(e) == "self.datefmtisNone":
+            return "JIsNone"
+        if src(e) == "self.datefmtisnotNone":
+            return "(JNot JIsNone)"
+        if isinstance(e, ast.BoolOp) and len(e.values) >= 2:
+            op = "JOr" if isinstance(e.op, ast.Or) else "JAnd"
+            t = jc(e.values[-1])
+            for v in reversed(e.values[:-1]):
+                t = "(%s %s %s)" % (op, jc(v), t)
+            return t
+        if isinstance(e, ast.UnaryOp) and isinstance(e.op, ast.Not):
+            return "(JNot %s)" % jc(e.operand)
+        fail("__init__: unsupported condition %s" % src(e), e)
+    # the datefmt seen by the condition is the constructor's argument (Formatter.__init__ stores it unchanged)
+    sup = [src(x) for x in fn.body if isinstance(x, ast.Expr) and "super().__init__" in src(x)]
+    if sup != ["super().__init__(fmt=None,datefmt=datefmt,style='%')"]:
+        fail("__init__: super().__init__(fmt=None, datefmt=datefmt, style='%')", fn)
+    return "\n".join([
+        "(* GENERATED on every run by py2coq from src/cobald/monitor/format_json.py -- do not edit *)",
+        "From Coq Require Import List.", "From Cobald Require Import kit.JsonIR.", "Import ListNotations.", "",
+        "Definition gen_json_steps : list jstep := [%s]." % "; ".join(steps),
+        "Definition gen_add_time : jcond := %s." % jc(cond), ""])
+
+
 UNITS = {"Gen_registry.v": gen_registry, "Gen_standardiser.v": gen_standardiser, "Gen_controllers.v": gen_controllers, "Gen_guard.v": gen_guard,
-         "Gen_composite.v": gen_composite, "Gen_factory.v": gen_factory, "Gen_decorators.v": gen_decorators, "Gen_sections.v": gen_sections, "Gen_services.v": gen_services}
+         "Gen_composite.v": gen_composite, "Gen_factory.v": gen_factory, "Gen_decorators.v": gen_decorators, "Gen_sections.v": gen_sections, "Gen_services.v": gen_services, "Gen_monitor.v": gen_monitor}
 
 
 def regen(repo, gendir, names=None):
